@@ -225,7 +225,7 @@ pub fn close_position(
 
     // validate address inputs
     let vamm = deps.api.addr_validate(&vamm)?;
-    let trader = info.sender;
+    let trader = info.sender.clone();
 
     // read the position for the trader from vamm
     let position = read_position(deps.storage, &vamm, &trader).unwrap();
@@ -235,6 +235,16 @@ pub fn close_position(
     require_not_paused(state.pause)?;
     require_position_not_zero(position.size.value)?;
     require_not_restriction_mode(deps.storage, &vamm, &trader, env.block.height)?;
+
+    // with native collateral the caller attaches the closing fees (a cw20 deployment pulls them
+    // from the caller in the reply): the reply checks what was sent against what is charged
+    store_sent_funds(
+        deps.storage,
+        &SentFunds {
+            asset: get_asset(info, config.eligible_collateral.clone()),
+            required: Uint128::zero(),
+        },
+    )?;
 
     // if it is long position, close a position means short it (which means base dir is AddToAmm) and vice versa
     let base_direction = if position.size > Integer::zero() {
